@@ -250,7 +250,17 @@ pub fn gen_c06(rng: &mut Rng, caseid: u64, unix: bool, bound_ms: u64) -> (ConvCa
                     vectored: rng.chance(1, 3),
                 },
                 6..=7 => Finish::Drop,
-                _ => Finish::Panic,
+                8 => Finish::Panic,
+                // now and then (never for the last request) the raw writer is taken and dropped
+                // with nothing written: that request has no response of its own, and the ones
+                // around it must still get exactly theirs
+                _ => {
+                    if !last && rng.chance(1, 2) {
+                        Finish::WriterNothing
+                    } else {
+                        Finish::Panic
+                    }
+                }
             }
         };
         let plan = ReqPlan {
